@@ -16,7 +16,7 @@ LEVEL = "exploration"
 ENGINE = "sansio"
 BUDGET = {"quick": (260, 22), "thorough": (12000, 240)}
 WORKERS = {"quick": 4, "thorough": 16}
-REQUIRED = ["outcome_compared", "pipeline_order"]
+REQUIRED = ["outcome_compared", "pipeline_order", "streaming_cases"]
 TECHNIQUE = "runtime monitoring: metamorphic re-execution under different segmentations/schedules, outcome compared via independent parser"
 RULE = (
     "case = spec of 1-4 pipelined generated requests (valid and hostile) + deterministic responses/edits; executed under baseline + "
@@ -26,6 +26,8 @@ RULE = (
 ASSUMPTIONS = [
     "schedules are TCP-legal: per-connection byte order preserved, a response is sent only after its request was completely written upstream",
     "client EOF only after all traffic (an early FIN is a different input, not a different segmentation)",
+    "streaming leg (30% of cases, well-formed traffic, body streaming by option or addon, origin may answer as soon as it has the request head): "
+    "request-side and response-side hooks of one flow legitimately interleave by arrival order, so hook order is compared per direction",
 ]
 LEVEL_TEXT = (
     "Exploration with a metamorphic oracle: the same conversation is replayed under many segmentations and completion orders; any "
@@ -77,7 +79,7 @@ def run(ctx):
     opts = tctx.options
     for i in ctx.cases():
         r = ctx.rng
-        spec = h1case.build_spec(r, allow_1xx=False)
+        spec = h1case.build_spec(r, allow_1xx=False, streaming_p=0.3)
         stream = b"".join(q["raw"] for q in spec["reqs"])
 
         def ex(cseg, sseg, sched):
@@ -97,6 +99,9 @@ def run(ctx):
         variants = [("bytes", "whole", "fifo"), ("bytes", "bytes", "random")] if len(stream) < 2500 else []
         variants += [("random", "random", "random") for _ in range(6 if ctx.tier == "quick" else 10)]
         variants += [("whole", "random", "random")]
+        if spec.get("streaming"):
+            ctx.count("streaming_cases")
+            variants += [("random", "bytes", "random"), ("bytes", "random", "random"), ("random", "random", "random"), ("random", "whole", "random")]
         if len(stream) <= 300:
             pts = list(range(1, len(stream)))
             if ctx.tier == "quick":
@@ -132,5 +137,5 @@ def run(ctx):
                 if tag is not None and (m["for_request"] >= len(spec["reqs"]) or spec["reqs"][m["for_request"]]["tag"] != tag):
                     ctx.violation("pipelined-response-answers-wrong-request", {"stream": stream, "down": bytes(d0.out[d0.client]), "tag": tag, "for_request": m["for_request"]})
         feats = sorted(set().union(*[q["feats"] for q in spec["reqs"]]))
-        completed = any("response" in f[0] or "error" in f[0] for f in base["flows"])
+        completed = any("response" in str(f[0]) or "error" in str(f[0]) for f in base["flows"])
         ctx.case((spec["mode"].split(":")[0], tuple(feats), len(spec["reqs"]), min(nvar, 12)), nvar >= 2 and completed, {"mode": spec["mode"], "stream": stream[:300], "variants": nvar, "base_hooks": d0.hook_names()})
